@@ -81,6 +81,11 @@ def shards(tier, seed):
             for scb in ("slow", "slow_connected", "slow_disconnected", "send_on_connected"):
                 if scb == "send_on_connected" and (kind == "actisense" or fault not in ("reset", "eof", "write_error")):
                     continue
+                if fault == "write_error_read_silent":
+                    # (this fault is not one a real transport produces - see the comment where it is injected; it is only
+                    # combined with status callbacks that return at once: while a connect() sits in a suspended callback the old
+                    # link's reader is still running and the pinned client depends on it noticing the loss)
+                    continue
                 if tier != "quick" or (fault in ("write_error", "reset", "eof") and scb != "slow_disconnected"):
                     out.append({"name": f"{kind}-{fault}-{scb}", "kind": kind, "what": "fault", "fault": fault, "scb": scb, "tier": tier, "seed": seed})
     return out
@@ -156,7 +161,19 @@ def fault_session(kind, fault, step, settle=40.0, scb="ok", second=None, mapping
                 sim.spawn("send", make_send_message(kind))
                 loop.call_later(0.05, c.feed_eof)
             elif fault == "write_error_read_silent":
-                # only the write direction breaks: the flush of a send() fails, the read side of the link stays silent (and open)
+                # only the write direction breaks: the flush of a send() fails, the read side of the link stays silent (and open).
+                # No real transport does that (a failing write tears the whole link down, the reader sees it too): the fault is
+                # kept because it is the only way to make two receive loops visible (7.18), and it is injected only while the
+                # client is idle - not while a connect() is still in progress or a status callback of the application is running
+                # (a connect() parked in a slow CONNECTED callback): there the pinned tree relies on the reader noticing the loss, which this fault withholds
+                calls_ = sum(1 for e_ in sim.trace if e_["k"] == "call" and e_.get("name") == "connect")
+                rets_ = sum(1 for e_ in sim.trace if e_["k"] == "ret" and e_.get("name") == "connect")
+                if calls_ > rets_ or sim.client.state.name != "CONNECTED" or sim.status_cb_active:
+                    if first:
+                        info.update(injected=False)
+                    else:
+                        info.update(second_injected=False)
+                    return
                 c.drain_fails = 0
                 sim.spawn("send", make_send_message(kind))
             elif fault == "write_error":
